@@ -70,7 +70,7 @@ Holds(c) == CASE c = "C15_PowerStoreExact" -> C15_PowerStoreExact [] c = "Conf_G
 TStep == /\ TNext
          /\ LET nb == {c \in Clauses : ~(Holds(c))'} IN
               /\ bad' = bad \cup {<<l, c>> : c \in nb}
-              /\ (nb = {} \/ Cardinality(bad) > 40 \/ PrintT(<<"VERIF_BAD", l, nb>>))
+              /\ (nb = {} \/ (Cardinality(bad) > 40 /\ "C15_PowerStoreExact" \notin nb) \/ PrintT(<<"VERIF_BAD", l, nb>>))
          /\ (l' <= Len(TraceLog) \/ PrintT(<<"VERIF_COV", ToJson(cov')>>))
 TSpec == TInit /\ [][TStep]_tvars
 =============================================================================
